@@ -702,7 +702,8 @@ fn run_node_scenario(sc: Scenario, seed: u64) -> NodeOut {
         tokio::time::sleep(Duration::from_millis(300)).await;
         let fin_mid = finalized(&pools).await;
         // the node must keep finalizing: wait for progress on every node (bounded)
-        let deadline = Instant::now() + Duration::from_millis(6500);
+        // (progress ends the wait; the bound is generous so that a loaded machine is not mistaken for a wedged node)
+        let deadline = Instant::now() + Duration::from_millis(60_000);
         let mut fin_end = fin_mid.clone();
         while Instant::now() < deadline {
             tokio::time::sleep(Duration::from_millis(250)).await;
@@ -715,11 +716,16 @@ fn run_node_scenario(sc: Scenario, seed: u64) -> NodeOut {
         if let Some((slot, hash)) = target {
             responses.lock().unwrap().clear();
             let bid: BlockId = (Slot::new(slot), hash.clone());
-            byz.req(RepairRequest::verif_new(vi(byz.id), RepairRequestType::LastSliceRoot(bid.clone())), "probe-request").await;
-            for _ in 0..40 {
-                tokio::time::sleep(Duration::from_millis(50)).await;
-                let got = responses.lock().unwrap().iter().filter(|r| matches!(r, RepairResponse::LastSliceRoot(RepairRequestType::LastSliceRoot(b), _, _, _) if *b == bid)).count();
-                if got >= real.len() { responder_ok = true; break; }
+            // an answer ends the wait; the request is repeated every 2 s for up to a minute (loaded machines)
+            'probe: for _ in 0..30 {
+                // every node answers a request once: answers are counted per round
+                responses.lock().unwrap().clear();
+                byz.req(RepairRequest::verif_new(vi(byz.id), RepairRequestType::LastSliceRoot(bid.clone())), "probe-request").await;
+                for _ in 0..40 {
+                    tokio::time::sleep(Duration::from_millis(50)).await;
+                    let got = responses.lock().unwrap().iter().filter(|r| matches!(r, RepairResponse::LastSliceRoot(RepairRequestType::LastSliceRoot(b), _, _, _) if *b == bid)).count();
+                    if got >= real.len() { responder_ok = true; break 'probe; }
+                }
             }
         } else { note.push_str(" no-notarized-block-observed"); }
         for c in &cancels { c.cancel(); }
